@@ -54,6 +54,19 @@ with the real package):
      silently ignores `additional_noise_Hamiltonian` (valid or malformed) and all options.
  D6h (`remap` inside `extend`) frequencies set on a pulse without any frequency dependent quantity
      are lost by `remap`, so `extend(…, cache_filter_function=True)` cannot infer them.
+ D6i (REPAIRED, finding F48) `extend` with identifier mappings sending operators of different
+     pulses to one name, and `remap` with a mapping that is not injective on the control or on the
+     noise identifiers, returned a pulse with indistinguishable operators; now `ValueError`
+     (`extend_duplicate_mapped_ids_rejected`, `remap_duplicate_mapped_ids_rejected`), and
+     "identifiers unique after mapping" is part of the documented domain (`ValidExtendBack`,
+     `ValidRemap`).  The DEFAULT mapping `identifier + '_' + qubits` is covered as well: it is not
+     injective across entries either (`'Z' + '_' + '12'` for the qubits `(1, 2)` and for the qubit
+     `12`; example `eDefaultClash`).
+ D6j an identifier mapping (`extend`: third element of an entry; `remap`:
+     `oper_identifier_mapping`) that misses an identifier of its pulse is rejected with `KeyError`
+     — neither `ValueError` nor `TypeError` (`extend([(p, 0, {'Z': 'a'}), (p, 1)])` for a pulse
+     with the identifiers `X`, `Z`: `KeyError: 'X'`).  Modelled as it is (`Err.keyError`;
+     `extend_error_class`, `remap_rejects_iff`).
 Not expressible in the abstraction (observed with the real package): `dt = 'abc'` raises
 `AttributeError`; a two-dimensional `dt` is accepted; option values are compared with `==`, so
 `order=True` / `order=1.0` pass for `order=1`.
@@ -580,16 +593,16 @@ end Examples
 
 /-! ### `remap` -/
 
-/-- `remap(pulse, order, d_per_qubit)` raises — a `ValueError` — exactly when `order` is not a
-permutation of `0 … N-1` (negative entries, repetitions, wrong length) or the dimension of the
-pulse is not `d_per_qubit ** N`; here `N = logN` is what NumPy computes for
-`int(log(d)/log(d_per_qubit))`, which is the number of qubits except for rounding (D6e: it is 2
-for `d = 216`, `d_per_qubit = 6`, so every `order` is rejected for that valid pulse). -/
-theorem remap_rejects_iff (d logN dpq : Nat) (order : List Int) (e : Err) :
-    remapChecks d logN dpq order = .error e ↔
-      ¬ ((∀ o ∈ order, 0 ≤ o) ∧ (order.map Int.toNat).Perm (List.range logN) ∧ d = dpq ^ logN) ∧
-        e = .valueError := by
-  unfold remapChecks
+/-- The operator part of `remap(pulse, order, d_per_qubit)` (the two `tensor_transpose` calls)
+raises — a `ValueError` — exactly when `order` is not a permutation of `0 … N-1` (negative
+entries, repetitions, wrong length) or the dimension of the pulse is not `d_per_qubit ** N`; here
+`N = logN` is what NumPy computes for `int(log(d)/log(d_per_qubit))`, which is the number of qubits
+except for rounding (D6e: it is 2 for `d = 216`, `d_per_qubit = 6`, so every `order` is rejected
+for that valid pulse). -/
+theorem remap_shape_rejects_iff (d logN dpq : Nat) (order : List Int) (e : Err) :
+    remapShapeChecks d logN dpq order = .error e ↔
+      ¬ RemapShapeOk d logN dpq order ∧ e = .valueError := by
+  unfold remapShapeChecks RemapShapeOk
   by_cases hneg : ∃ o ∈ order, o < 0
   · rw [C16.transposeResultInt_negative _ _ _ hneg]
     constructor
@@ -631,6 +644,135 @@ theorem remap_rejects_iff (d logN dpq : Nat) (order : List Int) (e : Err) :
       · intro h; cases h; exact ⟨fun h => hp h.2.1, rfl⟩
       · rintro ⟨-, rfl⟩; rfl
 
+theorem remap_shape_ok_iff (d logN dpq : Nat) (order : List Int) :
+    remapShapeChecks d logN dpq order = .ok () ↔ RemapShapeOk d logN dpq order := by
+  cases h : remapShapeChecks d logN dpq order with
+  | ok u =>
+    refine ⟨fun _ => ?_, fun _ => rfl⟩
+    apply Classical.byContradiction
+    intro hn
+    have := (remap_shape_rejects_iff d logN dpq order .valueError).mpr ⟨hn, rfl⟩
+    rw [h] at this; cases this
+  | error e =>
+    constructor
+    · intro h'; cases h'
+    · intro hok
+      exact absurd hok ((remap_shape_rejects_iff d logN dpq order e).mp h).1
+
+/-- A documented call of `remap` (`ValidRemap`: `order` a permutation of the qubits, dimension
+`d_per_qubit ** N`, the mapping — if given — covers all identifiers and is injective on the
+control and on the noise identifiers) is never rejected.  ALL inputs. -/
+theorem remap_valid_never_rejected (d logN dpq : Nat) (order : List Int) (cIds nIds : List String)
+    (mapping : Option RemapDef.Dict) (hv : ValidRemap d logN dpq order cIds nIds mapping) :
+    remapChecks d logN dpq order cIds nIds mapping = .ok () := by
+  unfold remapChecks
+  rw [(remap_shape_ok_iff d logN dpq order).mpr hv.1]
+  rcases remapIdChecks_spec cIds nIds mapping with ⟨_, _, _, h⟩ | ⟨hn, _⟩ | ⟨_, hn, _⟩
+  · exact h
+  · exact absurd hv.2.1 hn
+  · exact absurd hv.2.2 hn
+
+/-- `remap(pulse, order, d_per_qubit, oper_identifier_mapping)` raises exactly outside the
+documented domain, and which exception (ALL inputs): `ValueError` for an `order` / a dimension that
+does not fit (first, `remap_shape_rejects_iff`); else `KeyError` when the mapping misses an
+identifier (D6j); else `ValueError` when two control or two noise operators get the same
+identifier (the repair of F48, D6i). -/
+theorem remap_rejects_iff (d logN dpq : Nat) (order : List Int) (cIds nIds : List String)
+    (mapping : Option RemapDef.Dict) (e : Err) :
+    remapChecks d logN dpq order cIds nIds mapping = .error e ↔
+      (¬ RemapShapeOk d logN dpq order ∧ e = .valueError) ∨
+      (RemapShapeOk d logN dpq order ∧ ¬ RemapMappingTotal mapping (cIds ++ nIds) ∧ e = .keyError) ∨
+      (RemapShapeOk d logN dpq order ∧ RemapMappingTotal mapping (cIds ++ nIds) ∧
+        ¬ ((remapMapped mapping cIds).Nodup ∧ (remapMapped mapping nIds).Nodup) ∧ e = .valueError) := by
+  unfold remapChecks
+  cases hs : remapShapeChecks d logN dpq order with
+  | error e' =>
+    obtain ⟨hn, rfl⟩ := (remap_shape_rejects_iff d logN dpq order e').mp hs
+    simp only [Except.error.injEq]
+    constructor
+    · rintro rfl; exact .inl ⟨hn, rfl⟩
+    · rintro (⟨-, rfl⟩ | ⟨hok, -⟩ | ⟨hok, -⟩)
+      · rfl
+      · exact absurd hok hn
+      · exact absurd hok hn
+  | ok u =>
+    have hok := (remap_shape_ok_iff d logN dpq order).mp (by rw [hs])
+    simp only
+    rcases remapIdChecks_spec cIds nIds mapping with ⟨ht, hc, hn, h⟩ | ⟨hnt, h⟩ | ⟨ht, hnd, h⟩
+    · rw [h]
+      constructor
+      · intro h'; cases h'
+      · rintro (⟨hno, -⟩ | ⟨-, hnt, -⟩ | ⟨-, -, hnd, -⟩)
+        · exact absurd hok hno
+        · exact absurd ht hnt
+        · exact absurd ⟨hc, hn⟩ hnd
+    · rw [h]
+      simp only [Except.error.injEq]
+      constructor
+      · rintro rfl; exact .inr (.inl ⟨hok, hnt, rfl⟩)
+      · rintro (⟨hno, -⟩ | ⟨-, -, rfl⟩ | ⟨-, ht, -⟩)
+        · exact absurd hok hno
+        · rfl
+        · exact absurd ht hnt
+    · rw [h]
+      simp only [Except.error.injEq]
+      constructor
+      · rintro rfl; exact .inr (.inr ⟨hok, ht, hnd, rfl⟩)
+      · rintro (⟨hno, -⟩ | ⟨-, hnt, -⟩ | ⟨-, -, -, rfl⟩)
+        · exact absurd hok hno
+        · exact absurd ht hnt
+        · rfl
+
+/-- `remap` raises exactly on the calls outside `ValidRemap` (ALL inputs). -/
+theorem remap_rejects_iff_invalid (d logN dpq : Nat) (order : List Int) (cIds nIds : List String)
+    (mapping : Option RemapDef.Dict) :
+    (∃ e, remapChecks d logN dpq order cIds nIds mapping = .error e) ↔
+      ¬ ValidRemap d logN dpq order cIds nIds mapping := by
+  constructor
+  · rintro ⟨e, he⟩ hv
+    rw [remap_valid_never_rejected _ _ _ _ _ _ _ hv] at he; cases he
+  · intro hnv
+    by_cases hs : RemapShapeOk d logN dpq order
+    · by_cases ht : RemapMappingTotal mapping (cIds ++ nIds)
+      · refine ⟨.valueError, (remap_rejects_iff _ _ _ _ _ _ _ _).mpr (.inr (.inr ⟨hs, ht, ?_, rfl⟩))⟩
+        intro hn; exact hnv ⟨hs, ht, hn⟩
+      · exact ⟨.keyError, (remap_rejects_iff _ _ _ _ _ _ _ _).mpr (.inr (.inl ⟨hs, ht, rfl⟩))⟩
+    · exact ⟨.valueError, (remap_rejects_iff _ _ _ _ _ _ _ _).mpr (.inl ⟨hs, rfl⟩)⟩
+
+/-- **The repair of F48 in `remap`** (ALL inputs): a mapping that covers the identifiers but sends
+two control operators, or two noise operators, to the same identifier is rejected with
+`ValueError` — whatever the other arguments are (a bad `order` / dimension raises `ValueError`
+before). Without a mapping this concerns a pulse whose own identifiers repeat. -/
+theorem remap_duplicate_mapped_ids_rejected (d logN dpq : Nat) (order : List Int)
+    (cIds nIds : List String) (mapping : Option RemapDef.Dict)
+    (ht : RemapMappingTotal mapping (cIds ++ nIds))
+    (hd : ¬ (remapMapped mapping cIds).Nodup ∨ ¬ (remapMapped mapping nIds).Nodup) :
+    remapChecks d logN dpq order cIds nIds mapping = .error .valueError := by
+  rw [remap_rejects_iff]
+  by_cases hs : RemapShapeOk d logN dpq order
+  · refine .inr (.inr ⟨hs, ht, ?_, rfl⟩)
+    rintro ⟨h1, h2⟩
+    exact hd.elim (fun h => h h1) (fun h => h h2)
+  · exact .inl ⟨hs, rfl⟩
+
+/-- D6j: a mapping that misses an identifier is rejected — with `KeyError` when `order` and the
+dimension fit (ALL inputs). -/
+theorem remap_missing_key_rejected (d logN dpq : Nat) (order : List Int)
+    (cIds nIds : List String) (mapping : Option RemapDef.Dict)
+    (hs : RemapShapeOk d logN dpq order) (ht : ¬ RemapMappingTotal mapping (cIds ++ nIds)) :
+    remapChecks d logN dpq order cIds nIds mapping = .error .keyError :=
+  (remap_rejects_iff _ _ _ _ _ _ _ _).mpr (.inr (.inl ⟨hs, ht, rfl⟩))
+
+/-- The exception of `remap` is a `ValueError`, or the `KeyError` of an incomplete mapping. -/
+theorem remap_error_class (d logN dpq : Nat) (order : List Int) (cIds nIds : List String)
+    (mapping : Option RemapDef.Dict) {e : Err}
+    (h : remapChecks d logN dpq order cIds nIds mapping = .error e) :
+    e = .valueError ∨ (e = .keyError ∧ ¬ RemapMappingTotal mapping (cIds ++ nIds)) := by
+  rcases (remap_rejects_iff _ _ _ _ _ _ _ _).mp h with ⟨-, h⟩ | ⟨-, ht, h⟩ | ⟨-, -, -, h⟩
+  · exact .inl h
+  · exact .inr ⟨h, ht⟩
+  · exact .inl h
+
 example : remapChecks 8 3 2 [2, 0, 1] = .ok () := by decide
 example : remapChecks 8 3 2 [2, 0] = .error .valueError := by decide
 example : remapChecks 8 3 2 [-1, 0, 1] = .error .valueError := by decide
@@ -638,6 +780,31 @@ example : remapChecks 8 3 2 [1, 1, 0] = .error .valueError := by decide
 example : remapChecks 12 3 2 [2, 0, 1] = .error .valueError := by decide
 /-- D6e -/
 example : remapChecks 216 2 6 [1, 0, 2] = .error .valueError := by decide
+-- identifiers: the pulse `extend([(X_pulse, 0), (X_pulse, 1)])` of the docstring of `extend`
+example : ValidRemap 4 2 2 [1, 0] ["X_0", "X_1"] ["X_0", "X_1", "Z_0", "Z_1"] none ∧
+    remapChecks 4 2 2 [1, 0] ["X_0", "X_1"] ["X_0", "X_1", "Z_0", "Z_1"] none = .ok () := by decide
+/-- the example of the docstring of `remap` (identifiers swapped) -/
+example : ValidRemap 4 2 2 [1, 0] ["XY"] ["YX"] (some [("XY", "YX"), ("YX", "XY")]) ∧
+    remapChecks 4 2 2 [1, 0] ["XY"] ["YX"] (some [("XY", "YX"), ("YX", "XY")]) = .ok () := by decide
+/-- D6i (repaired): a mapping that is not injective on the control identifiers … -/
+example : remapChecks 4 2 2 [1, 0] ["X_0", "X_1"] ["Z_0", "Z_1"]
+    (some [("X_0", "a"), ("X_1", "a"), ("Z_0", "b"), ("Z_1", "c")]) = .error .valueError := by decide
+/-- … or on the noise identifiers; the same name for a control and a noise operator is fine -/
+example : remapChecks 4 2 2 [1, 0] ["X_0", "X_1"] ["Z_0", "Z_1"]
+    (some [("X_0", "a"), ("X_1", "b"), ("Z_0", "b"), ("Z_1", "b")]) = .error .valueError ∧
+    remapChecks 4 2 2 [1, 0] ["X_0", "X_1"] ["Z_0", "Z_1"]
+    (some [("X_0", "a"), ("X_1", "b"), ("Z_0", "a"), ("Z_1", "b")]) = .ok () := by decide
+/-- D6j: `KeyError` for a missing key — after the `ValueError` of a bad `order` -/
+example : remapChecks 4 2 2 [1, 0] ["X_0", "X_1"] ["Z_0", "Z_1"] (some [("X_0", "a")]) =
+      .error .keyError ∧
+    remapChecks 4 2 2 [1, 1] ["X_0", "X_1"] ["Z_0", "Z_1"] (some [("X_0", "a")]) =
+      .error .valueError := by decide
+/-- hypotheses of `remap_duplicate_mapped_ids_rejected` / `remap_missing_key_rejected` are
+satisfiable -/
+example : RemapMappingTotal (some [("X_0", "a"), ("X_1", "a")]) (["X_0", "X_1"] ++ []) ∧
+    ¬ (remapMapped (some [("X_0", "a"), ("X_1", "a")]) ["X_0", "X_1"]).Nodup ∧
+    RemapShapeOk 4 2 2 [1, 0] ∧ ¬ RemapMappingTotal (some [("X_0", "a")]) (["X_0", "X_1"] ++ []) := by
+  decide
 
 /-! ### `extend` -/
 
@@ -659,12 +826,16 @@ theorem extend_valid_never_rejected (x : ExtendSpec) (hrf : ExtendRegularFront x
 /-- `extend` raises exactly on the calls outside the documented domain (`ValidExtend`: non-empty
 mapping; every pulse mapped to as many qubits as its dimension says; equal time grids; no qubit
 used twice; `N` large enough; frequencies given or inferable when the filter function is forced;
-diagonalization not switched off while needed; additional noise Hamiltonian valid, of the
-register's dimension, with new identifiers).  Hypotheses and the discrepancies they exclude:
+diagonalization not switched off while needed; identifier mappings complete; control identifiers
+and noise identifiers unique AFTER MAPPING (the repair of F48, D6i); additional noise Hamiltonian
+valid, of the register's dimension, with new identifiers).  Hypotheses and the discrepancies they
+exclude:
 * `ExtendRegularFront`: time grids equal as arrays have equal bytes — the code hashes bytes, so
   `dt = [1, 1]` (int) vs `[1., 1.]`, or `0.0` vs `-0.0`, count as unequal (D6d); NumPy's
   `int(log(d)/log(d_per_qubit))` is exact — it is 2 for `d = 216 = 6³`, so `remap` (called for a
-  qubit tuple that is not ascending) fails for a valid 3-qudit pulse (D6e);
+  qubit tuple that is not ascending) fails for a valid 3-qudit pulse (D6e); pulses that go through
+  `remap` have unique identifiers of their own (invariant of `PulseSequence`; otherwise rejected
+  too, but by the inner `remap`: `extend_own_duplicates_rejected`);
 * `ExtendRegularBack`: the same for cached frequencies; `remap` keeps the cached frequencies;
   `cache_diagonalization=False` with an additional noise Hamiltonian is rejected even when no
   filter function is to be computed, i.e. when the diagonalization is NOT needed (D6f);
@@ -686,8 +857,9 @@ theorem extend_rejects_iff (x : ExtendSpec) (hrf : ExtendRegularFront x)
     exact ⟨fun _ hv => hnv hv.1, fun _ => ⟨_, rfl⟩⟩
 
 /-- Which exception: every rejection is a `ValueError` explained by a corruption of the mapping,
-or has the class of a corruption of the remaining arguments (`ValueError`, except for a malformed
-additional noise Hamiltonian, which raises what the constructor raises for it). -/
+or has the class of a corruption of the remaining arguments (`ValueError`, except for an
+incomplete identifier mapping — `KeyError`, D6j — and for a malformed additional noise
+Hamiltonian, which raises what the constructor raises for it). -/
 theorem extend_rejection_explained (x : ExtendSpec) (hrf : ExtendRegularFront x)
     (hrb : ExtendRegularBack x) {e : Err} (h : extendChecks x = .error e) :
     (e = .valueError ∧ ∃ k, ExtFrontViolates x k) ∨
@@ -703,18 +875,124 @@ theorem extend_rejection_explained (x : ExtendSpec) (hrf : ExtendRegularFront x)
       · rw [hb] at h; cases h; exact .inr ⟨hvf, k, hk, rfl⟩
   · rw [hf] at h; cases h; exact .inl ⟨rfl, hk⟩
 
-/-- The exception is a `ValueError` unless the additional noise Hamiltonian is malformed in a way
-that raises `TypeError` / `IndexError` in `_parse_Hamiltonian`. -/
+/-- The exception is a `ValueError` unless an identifier mapping misses an identifier of its pulse
+(`KeyError`, D6j) or the additional noise Hamiltonian is malformed in a way that raises
+`TypeError` in `_parse_Hamiltonian`. -/
 theorem extend_error_class (x : ExtendSpec) (hrf : ExtendRegularFront x)
     (hrb : ExtendRegularBack x) {e : Err} (h : extendChecks x = .error e) :
-    e = .valueError ∨ ∃ H k, x.additional = some H ∧ HamViolates H (extendNDt x) "B" k ∧ k.cls = e := by
+    e = .valueError ∨ (e = .keyError ∧ ∃ p ∈ x.pulses, ¬ p.MappingTotal) ∨
+      ∃ H k, x.additional = some H ∧ HamViolates H (extendNDt x) "B" k ∧ k.cls = e := by
   rcases extend_rejection_explained x hrf hrb h with ⟨rfl, _⟩ | ⟨_, k, hk, hc⟩
   · exact .inl rfl
   · cases k with
     | additional k' =>
       obtain ⟨H, hH, hv⟩ := hk
-      exact .inr ⟨H, k', hH, hv, hc⟩
+      exact .inr (.inr ⟨H, k', hH, hv, hc⟩)
+    | missingKey => exact .inr (.inl ⟨hc.symm, hk⟩)
     | _ => left; simpa [ExtBackKind.cls] using hc.symm
+
+/-- If the call is invalid and all corruptions present have class `e` (e.g. exactly one
+corruption), the exception raised is `e`. -/
+theorem extend_class_of_corruption (x : ExtendSpec) (hrf : ExtendRegularFront x)
+    (hrb : ExtendRegularBack x) (hs : identityShortcut x.pulses (extendN x) = false) {e : Err}
+    (hnv : ¬ ValidExtend x)
+    (hfront : (∃ k, ExtFrontViolates x k) → e = .valueError)
+    (hback : ∀ k, ExtBackViolates x (extendN x) k → k.cls = e) : extendChecks x = .error e := by
+  obtain ⟨e', he'⟩ := (extend_rejects_iff x hrf hrb hs).mpr hnv
+  rcases extend_rejection_explained x hrf hrb he' with ⟨rfl, hk⟩ | ⟨_, k, hk, hc⟩
+  · rw [he', hfront hk]
+  · rw [he', ← hc, hback k hk]
+
+/-- **The repair of F48 in `extend`** (ALL inputs, no side condition but "no early return", D6g):
+when the identifier mappings are complete and two control operators, or two noise operators, of
+the mapped pulses get the same identifier — through given mappings, through the default mapping,
+or because a pulse's own identifiers repeat — the call is rejected with `ValueError`, whatever the
+other arguments are (every check that comes earlier raises `ValueError` as well). -/
+theorem extend_duplicate_mapped_ids_rejected (x : ExtendSpec)
+    (hs : identityShortcut x.pulses (extendN x) = false)
+    (ht : ∀ p ∈ x.pulses, p.MappingTotal)
+    (hd : ¬ (mappedCIds x).Nodup ∨ ¬ (mappedNIds x).Nodup) :
+    extendChecks x = .error .valueError := by
+  unfold extendChecks
+  cases hf : extendFront x with
+  | error e => rw [extendFront_error hf]
+  | ok N =>
+    have hN := extendFront_ok hf
+    subst hN
+    simp only [hs, Bool.false_eq_true, ↓reduceIte]
+    rcases extendBack_of_not_unique x (extendN x) hd with h | ⟨_, p, hp, hk⟩
+    · exact h
+    · exact absurd (ht p hp) hk
+
+/-- D6j (ALL inputs, no early return): an identifier mapping that misses an identifier of its pulse
+is rejected — with `KeyError`, unless one of the earlier checks (mapping of the pulses to qubits,
+frequencies, option conflict) raises its `ValueError` first. -/
+theorem extend_missing_key_rejected (x : ExtendSpec)
+    (hs : identityShortcut x.pulses (extendN x) = false)
+    (hk : ∃ p ∈ x.pulses, ¬ p.MappingTotal) :
+    extendChecks x = .error .valueError ∨ extendChecks x = .error .keyError := by
+  unfold extendChecks
+  cases hf : extendFront x with
+  | error e => rw [extendFront_error hf]; exact .inl rfl
+  | ok N =>
+    have hN := extendFront_ok hf
+    subst hN
+    simp only [hs, Bool.false_eq_true, ↓reduceIte]
+    exact extendBack_of_missing_key x (extendN x) hk
+
+/-- A pulse whose OWN control or noise identifiers repeat (not constructible through the public
+interface, but the identifier arrays are plain attributes) is rejected (ALL inputs, no early
+return): by the inner `remap` when it is remapped, else by the uniqueness check — `ValueError` —
+or, with an incomplete mapping, possibly `KeyError`. -/
+theorem extend_own_duplicates_rejected (x : ExtendSpec)
+    (hs : identityShortcut x.pulses (extendN x) = false)
+    {p : EPulse} (hp : p ∈ x.pulses) (hd : ¬ p.cIds.Nodup ∨ ¬ p.nIds.Nodup) :
+    extendChecks x = .error .valueError ∨ extendChecks x = .error .keyError := by
+  by_cases ht : ∀ q ∈ x.pulses, q.MappingTotal
+  · left
+    apply extend_duplicate_mapped_ids_rejected x hs ht
+    rcases hd with hd | hd
+    · exact .inl (mappedCIds_not_nodup_of_own x hp (ht p hp) hd)
+    · exact .inr (mappedNIds_not_nodup_of_own x hp (ht p hp) hd)
+  · apply extend_missing_key_rejected x hs
+    apply Classical.byContradiction
+    intro hno
+    apply ht
+    intro q hq
+    apply Classical.byContradiction
+    intro hq'
+    exact hno ⟨q, hq, hq'⟩
+
+/-- The model's shortcut `EPulse.remapOk` for the `remap` call inside `extend` IS the check of
+`remap` (no mapping is passed) for any `order` that is a permutation of the positions of the
+entry's qubits. -/
+theorem extend_inner_remap_consistent (p : EPulse) (dpq : Nat) (order : List Int)
+    (hnn : ∀ o ∈ order, 0 ≤ o) (hperm : (order.map Int.toNat).Perm (List.range p.qubits.length)) :
+    p.remapOk dpq = true ↔ remapChecks p.d p.logN dpq order p.cIds p.nIds none = .ok () := by
+  have hlen : order.length = p.qubits.length := by
+    have := hperm.length_eq
+    simpa using this
+  have hvalid : remapChecks p.d p.logN dpq order p.cIds p.nIds none = .ok () ↔
+      ValidRemap p.d p.logN dpq order p.cIds p.nIds none := by
+    constructor
+    · intro h
+      apply Classical.byContradiction
+      intro hn
+      obtain ⟨e, he⟩ := (remap_rejects_iff_invalid _ _ _ _ _ _ _).mpr hn
+      rw [h] at he; cases he
+    · exact remap_valid_never_rejected _ _ _ _ _ _ _
+  rw [hvalid]
+  unfold EPulse.remapOk ValidRemap RemapShapeOk remapMapped remapIds
+  simp only [Bool.and_eq_true, beq_iff_eq, Bool.not_eq_true', hasDup_eq_false_iff,
+    Option.getD_some]
+  constructor
+  · rintro ⟨⟨⟨hl, hd⟩, hc⟩, hn⟩
+    exact ⟨⟨hnn, hl ▸ hperm, hd⟩, trivial, hc, hn⟩
+  · rintro ⟨⟨-, hp, hd⟩, -, hc, hn⟩
+    refine ⟨⟨⟨?_, hd⟩, hc⟩, hn⟩
+    have := hp.length_eq
+    simp only [List.length_map, List.length_range] at this
+    omega
 
 /-- D6g: with a single pulse mapped onto its own qubits, NOTHING after the mapping checks is
 looked at — the call succeeds whatever the additional noise Hamiltonian and the options are. -/
@@ -777,6 +1055,70 @@ example : extendChecks eDiag = .error .valueError ∧ ValidExtend eDiag := by de
 /-- D6g: a malformed additional noise Hamiltonian is ignored for `extend([(pulse, 0)], …)`. -/
 def eId : ExtendSpec := { pulses := [ep 0], additional := some .notList, cacheFF := some true }
 example : extendChecks eId = .ok 1 ∧ ¬ ValidExtend eId := by decide
+-- identifier mappings (D6i, D6j).  `epm q m`: the pulse `X_pulse` of the docstring of `extend`
+-- (control `X`, noise `X`, `Z`) mapped to qubit `q` with the identifier mapping `m`
+def epm (q : Nat) (m : Option RemapDef.Dict) : EPulse :=
+  { ep q with cIds := ["X"], nIds := ["X", "Z"], mapping := m }
+/-- the example of the docstring: `extend([(X_pulse, 1, {'X': 'IX', 'Z': 'IZ'}), (Y_pulse, 0, …)])` -/
+def eMap : ExtendSpec :=
+  { pulses := [epm 1 (some [("X", "IX"), ("Z", "IZ")]),
+               { epm 0 (some [("Y", "YI"), ("Z", "ZI")]) with cIds := ["Y"], nIds := ["Y", "Z"] }] }
+example : ValidExtend eMap ∧ ExtendRegularFront eMap ∧ ExtendRegularBack eMap ∧
+    extendChecks eMap = .ok 2 ∧ mappedCIds eMap = ["IX", "YI"] ∧
+    mappedNIds eMap = ["IX", "IZ", "YI", "ZI"] := by decide
+/-- default mappings: `X_0`, `X_1` / `X_0`, `Z_0`, `X_1`, `Z_1` -/
+example : ValidExtend { pulses := [epm 0 none, epm 1 none] } ∧
+    extendChecks { pulses := [epm 0 none, epm 1 none] } = .ok 2 ∧
+    mappedNIds { pulses := [epm 0 none, epm 1 none] } = ["X_0", "Z_0", "X_1", "Z_1"] := by decide
+/-- D6i (repaired): two control operators mapped to one name … -/
+def eDupC : ExtendSpec :=
+  { pulses := [epm 0 (some [("X", "a"), ("Z", "b")]), epm 1 (some [("X", "a"), ("Z", "c")])] }
+example : extendChecks eDupC = .error .valueError ∧ ¬ ValidExtend eDupC ∧
+    ¬ (mappedCIds eDupC).Nodup ∧ (∀ p ∈ eDupC.pulses, p.MappingTotal) ∧
+    identityShortcut eDupC.pulses (extendN eDupC) = false := by decide
+example : ExtBackViolates eDupC 2 .duplicateControl := by
+  show ¬ (mappedCIds eDupC).Nodup
+  decide
+/-- … two noise operators of one pulse, or of different pulses, mapped to one name -/
+def eDupN : ExtendSpec := { pulses := [epm 0 (some [("X", "a"), ("Z", "a")]), epm 1 none] }
+example : extendChecks eDupN = .error .valueError ∧ ¬ ValidExtend eDupN := by decide
+example : ExtBackViolates eDupN 2 .duplicateNoise := by
+  show ¬ (mappedNIds eDupN).Nodup
+  decide
+example : extendChecks { pulses := [epm 0 (some [("X", "a"), ("Z", "b")]),
+    epm 1 (some [("X", "c"), ("Z", "b")])] } = .error .valueError := by decide
+/-- a given mapping colliding with the DEFAULT mapping of another entry -/
+example : extendChecks { pulses := [epm 0 (some [("X", "X_1"), ("Z", "b")]), epm 1 none] } =
+    .error .valueError := by decide
+/-- the default mapping alone is not injective: qubits `(1, 2)` and qubit `12` both append `_12` -/
+def eDefaultClash : ExtendSpec :=
+  { pulses := [{ ep2 [1, 2] with nIds := ["Z"] }, ep 12] }
+example : extendChecks eDefaultClash = .error .valueError ∧ ValidExtendFront eDefaultClash ∧
+    mappedNIds eDefaultClash = ["Z_12", "Z_12"] := by decide
+/-- the duplicate check comes before the additional noise Hamiltonian (a `TypeError` otherwise) … -/
+example : extendChecks { eDupN with additional := some .notList } = .error .valueError := by decide
+/-- … and after the frequency / option-conflict checks and the `KeyError` of the loops -/
+example : extendChecks { pulses := [epm 0 (some [("X", "a"), ("Z", "a")]), epm 1 (some [("X", "b")])] } =
+    .error .keyError := by decide
+/-- D6j: `extend([(p, 0, {'Z': 'a'}), (p, 1)])` raises `KeyError: 'X'` -/
+def eKey : ExtendSpec := { pulses := [epm 0 (some [("Z", "a")]), epm 1 none] }
+example : extendChecks eKey = .error .keyError ∧ ¬ ValidExtend eKey ∧
+    ExtendRegularFront eKey ∧ ExtendRegularBack eKey ∧
+    identityShortcut eKey.pulses (extendN eKey) = false := by decide
+example : ExtBackViolates eKey 2 .missingKey := by
+  show ∃ p ∈ eKey.pulses, ¬ p.MappingTotal
+  decide
+example : extendChecks { eKey with cacheFF := some true } = .error .valueError ∧
+    extendChecks { eKey with additional := some .notList } = .error .keyError := by decide
+/-- the mapping is not looked at when the pulse is returned as is (D6g) -/
+example : extendChecks { pulses := [epm 0 (some [("Z", "a")])] } = .ok 1 := by decide
+/-- own identifiers repeated (`pulse.n_oper_identifiers` overwritten): rejected by the inner `remap`
+when the qubits are permuted ("Could not remap"), by the uniqueness check otherwise -/
+def epOwn (qs : List Nat) : EPulse := { ep2 qs with cIds := ["X_0", "X_1"], nIds := ["a", "a", "b"] }
+example : extendFront { pulses := [epOwn [1, 0]], N := some 3 } = .error .valueError ∧
+    extendFront { pulses := [epOwn [0, 1]], N := some 3 } = .ok 3 ∧
+    extendChecks { pulses := [epOwn [0, 1]], N := some 3 } = .error .valueError ∧
+    ¬ ExtendRegularFront { pulses := [epOwn [1, 0]], N := some 3 } := by decide
 end Examples
 
 /-! ### pulse-correlation quantities -/
